@@ -1,5 +1,117 @@
+/-
+  Model of Convert_mus2midi (src/cvt_mus2mid.hpp): DMX MUS score -> one-track Standard MIDI File image.
+  Every read of the score is bounded by the score end (MUS_NEED); a score that ends inside an event is rejected.
+-/
 import OpnVerif.Model.Seq
+
 namespace Opn.Mus
 open Opn Opn.Seq
-def convert (_ : Bytes) : Option Bytes := none
+
+def musDivision : Nat := 0x0101
+def musTempo : Nat := 0x00068A1B
+
+/-- mus_midimap -/
+def midimap : List Nat := [0, 0, 0x01, 0x07, 0x0A, 0x0B, 0x5B, 0x5D, 0x40, 0x43, 0x78, 0x7B, 0x7E, 0x7F, 0x79]
+
+/-- mus2mid_writevarlen for a non-negative value below 2^28 (larger deltas do not occur: see `delayBytes`) -/
+def writeVarLen (v : Nat) : Bytes :=
+  let rec go (fuel : Nat) (v : Nat) (acc : Bytes) : Bytes :=
+    match fuel with
+    | 0 => acc
+    | f + 1 => if v / 128 > 0 then go f (v / 128) (((v / 128) % 128 + 128) :: acc) else acc
+  go 5 v [v % 128]
+
+structure St where
+  map : List Int := (List.replicate 15 (-1)) ++ [9]      -- channelMap
+  vol : List Nat := List.replicate 16 0x40               -- channel_volume
+  cur : Nat := 0                                         -- currentChannel
+  deriving Repr, Inhabited
+
+/-- the delay bytes behind an event with the high bit set: `none` = the score ended inside the delay;
+    `(int32_t)((delta * 128 + b) * 1.0)`; a delay of more than 28 bits is refused -/
+def readDelay : Bytes → Nat → Nat → Option (Nat × Bytes)
+  | [], _, _ => none
+  | b :: rest, acc, n =>
+    if acc ≥ 2097152 then none else           -- more than 28 bits: refused
+    let acc' := acc * 128 + b % 128
+    if b ≥ 128 then readDelay rest acc' (n + 1) else some (acc', rest)
+
+/-- the main loop.  `out` is the track body written so far (reversed chunks are avoided: scores are short). -/
+def scoreLoop (channels : Nat) : Nat → Bytes → St → Nat → Bytes → Option Bytes
+  | 0, _, _, _, out => some out
+  | fuel + 1, cur, st, delta, out =>
+    match cur with
+    | [] => some out
+    | event :: rest =>
+      let channel := event % 16
+      let pre := writeVarLen delta
+      -- first use of a MUS channel: volume 100 on the next free MIDI channel
+      let (st, pre) :=
+        if st.map.getD channel (-1) < 0 then
+          let c := st.cur
+          ({ st with map := st.map.set channel (c : Int), cur := if c + 1 == 9 then c + 2 else c + 1 }, pre ++ [0xB0 + c, 0x07, 100, 0x00])
+        else (st, pre)
+      let mch := (st.map.getD channel 0).toNat
+      let kind := event / 16 % 8
+      let body : Option (Bytes × Bytes × St) :=
+        if kind == 0 then
+          match rest with
+          | a :: r => some ([mch ||| 0x80, a, 0x40], r, st)
+          | _ => none
+        else if kind == 1 then
+          match rest with
+          | a :: r =>
+            if a ≥ 128 then
+              match r with
+              | v :: r2 => let st := { st with vol := st.vol.set mch v }; some ([mch ||| 0x90, a % 128, v], r2, st)
+              | _ => none
+            else some ([mch ||| 0x90, a % 128, st.vol.getD mch 0x40], r, st)
+          | _ => none
+        else if kind == 2 then
+          match rest with
+          | a :: r => some ([mch ||| 0xE0, 0, a / 2 % 128], r, st)
+          | _ => none
+        else if kind == 3 then
+          match rest with
+          | a :: b :: r =>
+            if a ≥ midimap.length then none else some ([mch ||| 0xB0, midimap.getD a 0, if b == 12 then (channels + 1) % 256 else 0], r, st)
+          | _ => none
+        else if kind == 4 then
+          match rest with
+          | a :: b :: r =>
+            if a == 0 then some ([mch ||| 0xC0, b], r, st)
+            else if a ≥ midimap.length then none else some ([mch ||| 0xB0, midimap.getD a 0, b], r, st)
+          | _ => none
+        else if kind == 6 then some ([0xFF, 0x2F, 0x00], rest, st)
+        else none
+      match body with
+      | none => none
+      | some (ev, rest, st) =>
+        let out := out ++ pre ++ ev
+        if event ≥ 128 then
+          match readDelay rest 0 0 with
+          | none => none
+          | some (d, rest') => scoreLoop channels fuel rest' st d out
+        else scoreLoop channels fuel rest st 0 out
+
+def le16 (bs : Bytes) (i : Nat) : Nat := bs.getD i 0 + 256 * bs.getD (i + 1) 0
+
+/-- Convert_mus2midi: the SMF image, or `none` when the converter refuses the data -/
+def convert (bs : Bytes) : Option Bytes :=
+  if bs.length < 14 then none else
+  if bs.take 4 != [77, 85, 83, 0x1A] then none else
+  let scoreLen := le16 bs 4
+  let scoreStart := le16 bs 6
+  let channels := le16 bs 8
+  if bs.length < scoreLen + scoreStart then none else
+  if channels > 15 then none else
+  let score := (bs.drop scoreStart).take scoreLen
+  let pre : Bytes := [0x00, 0xFF, 0x51, 0x03, musTempo % 256, musTempo / 256 % 256, musTempo / 65536 % 256, 0x00, 0xB9, 0x07, 100]
+  match scoreLoop channels (score.length + 1) score {} 0 pre with
+  | none => none
+  | some body =>
+    let n := body.length
+    some ([77, 84, 104, 100, 0, 0, 0, 6, 0, 0, 0, 1, musDivision / 256, musDivision % 256, 77, 84, 114, 107,
+           n / 16777216 % 256, n / 65536 % 256, n / 256 % 256, n % 256] ++ body)
+
 end Opn.Mus
